@@ -185,6 +185,7 @@ fn run_stepped(ctx: &Ctx, plan: &Plan) -> Stats {
             let case_seed = rng.next();
             let mut h = History::new(case_seed, &plan.profiles[0], Some(Triggers::default()));
             h.triggered = false;
+            h.directed = Some((*name).to_owned());
             h.oplog.push(format!("directed scenario: {name}"));
             f(&mut h);
             h.finish();
@@ -230,6 +231,24 @@ pub fn replay(ctx: &Ctx, plan: &Plan, doc: &Value) -> Stats {
     let mut h = History::new(seed, profile, if forced { Some(Triggers::default()) } else { None });
     if forced {
         h.triggered = false;
+    }
+    if let Some(d) = doc["directed"].as_str() {
+        if let Some((name, f)) = plan.directed.iter().find(|(n, _)| *n == d) {
+            let mut h = History::new(seed, &plan.profiles[0], Some(Triggers::default()));
+            h.triggered = false;
+            h.directed = Some((*name).to_owned());
+            h.verbose = true;
+            f(&mut h);
+            h.finish();
+            judge_history(ctx, &mut stats, &h);
+            println!("replayed directed scenario {name}: {} operations", h.oplog.len());
+            for r in h.records.iter() {
+                println!("  => [{}/{}] {}", r.property, r.oracle, r.message);
+            }
+            stats.shapes.insert(1);
+            stats.shapes.insert(2);
+            return stats;
+        }
     }
     if let Some(syms) = doc["symbols"].as_array() {
         if !syms.is_empty() {
